@@ -92,7 +92,9 @@ def parseOp : List String → Op
 
 def follower : Pattern := { follow := true, after := fun _ => false }
 
-def stepLine (w : World) (t : List String) : World × String := step follower w (parseOp t)
+def stepLine (w : World) (t : List String) : World × String :=
+  let r := step follower w (parseOp t)
+  (r.1, r.2.str)
 
 end GnoVerif.Drive.C01
 
